@@ -1,0 +1,19 @@
+//go:build verif
+// +build verif
+
+/*
+Copyright SecureKey Technologies Inc. All Rights Reserved.
+SPDX-License-Identifier: Apache-2.0
+*/
+
+package localkms
+
+// VerifYield, when set (before any concurrent use), is called between the two halves of multi-step operations so that a
+// verification harness can widen the window in which another goroutine may run. Build tag verif only.
+var VerifYield func() //nolint:gochecknoglobals
+
+func verifYield() {
+	if f := VerifYield; f != nil {
+		f()
+	}
+}
